@@ -302,13 +302,23 @@ type world struct {
 	nextID graph.ID
 }
 
+// nilValue: the one drawn value that stands for a nil property value (a legal value: the drivers send it as null).
+const nilValue = 3
+
+func anyOf(v int) any {
+	if v == nilValue {
+		return nil
+	}
+	return v
+}
+
 func (w *world) loadedMap() map[string]any {
 	if len(w.c.L) == 0 && w.c.NilMap {
 		return nil
 	}
 	m := make(map[string]any, len(w.c.L))
 	for k, v := range w.c.L {
-		m[k] = v
+		m[k] = anyOf(v)
 	}
 	return m
 }
@@ -408,7 +418,7 @@ func fmtMap(m map[string]any) string {
 func fmtInts(m map[string]int) string {
 	a := make(map[string]any, len(m))
 	for k, v := range m {
-		a[k] = v
+		a[k] = anyOf(v)
 	}
 	return fmtMap(a)
 }
@@ -482,14 +492,14 @@ func (w *world) verify(what string, e *entity, m *model) error {
 	}
 	want := map[string]any{}
 	for k, v := range m.c {
-		want[k] = v
+		want[k] = anyOf(v)
 	}
 	if !sameMap(cur, want) {
 		return fail("current properties are %s, the edits made so far give %s", fmtMap(cur), fmtMap(want))
 	}
 	applied := map[string]any{}
 	for k, v := range w.c.L {
-		applied[k] = v
+		applied[k] = anyOf(v)
 	}
 	for k, v := range modified {
 		applied[k] = v
@@ -599,7 +609,7 @@ func run(c Case, veto func(step int, recv, other *model, withKinds bool) bool) (
 				cls["set-writes-loaded-value"] = true
 			}
 			if !dry {
-				e.p.Set(op.Key, op.Val)
+				e.p.Set(op.Key, anyOf(op.Val))
 			}
 			m.set(op.Key, op.Val)
 		case "setall":
@@ -609,7 +619,7 @@ func run(c Case, veto func(step int, recv, other *model, withKinds bool) bool) (
 					cls["set-after-delete"] = true
 					info.NonTrivial = true
 				}
-				kv[k] = op.KV[k]
+				kv[k] = anyOf(op.KV[k])
 				m.set(k, op.KV[k])
 			}
 			if !dry {
@@ -635,7 +645,7 @@ func run(c Case, veto func(step int, recv, other *model, withKinds bool) bool) (
 			// a read is not an edit: nothing may be recorded and (checked below, like after every step)
 			// the current state stays what it was. Whether the returned value is right is not C12's business.
 			modBefore, delBefore := sortedCopy(keysOf(e.p.ModifiedProperties())), sortedCopy(e.p.DeletedProperties())
-			_ = e.p.GetOrDefault(op.Key, op.Val).Any()
+			_ = e.p.GetOrDefault(op.Key, anyOf(op.Val)).Any()
 			if _, ok := m.c[op.Key]; ok {
 				cls["get-present"] = true
 			} else {
